@@ -452,7 +452,7 @@ package rac
 //@   prop C14 C15
 //@   requires 0 <= r.seekPosition && implies(r.initialized && r.err == nil, crInv(r))
 //@   ensures implies(result == nil, r.err == nil && r.initialized && crInv(r) && r.needToResolveSeekPosition && r.seekPosition == dSpaceOffset && dSpaceOffset >= 0)
-//@   ensures implies(result != nil, r.err != nil)
+//@   ensures implies(result != nil, r.err != nil) && 0 <= r.seekPosition
 //@   ensures implies(old(r.initialized) && old(r.err) == nil, unchanged(r.decompressedSize))
 //@   modifies r.err, r.initialized, r.readSeeker, mem(r.currNode), r.needToResolveSeekPosition, r.rootNodeCOffset, r.rootNodeArity, r.decompressedSize, r.seekPosition
 
@@ -474,7 +474,45 @@ package rac
 //@   ensures[negative] implies(isnil(old(r.concReader.stopc)) && 0 <= whence && whence <= 2 && seekTarget(old(r.pos), old(r.chunkReader.decompressedSize), offset, whence) < 0 && seekTarget(old(r.pos), old(r.chunkReader.decompressedSize), offset, whence) >= 0 - 9223372036854775808, result1 != nil)
 //@   ensures[limit] implies(isnil(old(r.concReader.stopc)) && result1 == nil, r.posLimit == min(limit, r.chunkReader.decompressedSize))
 //@   ensures[stateA] implies(isnil(old(r.concReader.stopc)) && result1 == nil && r.pos != old(r.pos), r.dRange[0] == r.pos && r.dRange[1] == r.pos && r.decompressor == nil && !r.inImplicitZeroes)
-//@   modifies *r
+//@   ensures[inv] 0 <= r.pos && 0 <= r.chunkReader.seekPosition && implies(r.chunkReader.initialized && r.chunkReader.err == nil, crInv(r.chunkReader)) && implies(old(r.chunkReader.initialized) && old(r.chunkReader.err) == nil, unchanged(r.chunkReader.decompressedSize)) && implies(isnil(old(r.concReader.stopc)), unchanged(r.concReader.stopc)) && implies(r.err == nil && r.chunkReader.initialized, r.chunkReader.err == nil)
+//@   modifies *r, mem(r.chunkReader.currNode)
+
+//@ func (*concReader).initialize
+//@   prop C14
+//@   trusted concurrent code path (goroutines, channels): not verified; assumed to touch only the concReader, and to leave it idle (stopc == nil) when Concurrency <= 1
+//@   ensures implies(racReader.Concurrency <= 1, unchanged(c.stopc))
+//@   modifies *c
+
+// rOK: the Reader's state between calls once initialize has succeeded.
+//@ spec rOK(r *Reader) bool = r != nil && 0 <= r.pos && 0 <= r.chunkReader.seekPosition && implies(r.chunkReader.initialized && r.chunkReader.err == nil, crInv(r.chunkReader)) && implies(r.err == nil && r.chunkReader.initialized, r.chunkReader.err == nil)
+
+//@ func (*Reader).initialize
+//@   prop C14
+//@   requires rOK(r)
+//@   ensures rOK(r) && unchanged(r.pos) && unchanged(r.Concurrency) && implies(result == nil, r.chunkReader.initialized && r.chunkReader.err == nil)
+//@   ensures[idle] implies(old(r.Concurrency) <= 1, unchanged(r.concReader.stopc))
+//@   ensures[again] implies(old(r.err) == nil && old(r.chunkReader.initialized), result == nil && unchanged(r.posLimit) && unchanged(r.concReader.stopc) && unchanged(r.chunkReader.decompressedSize))
+//@   ensures[first] implies(result == nil && !old(r.chunkReader.initialized), r.posLimit == r.chunkReader.decompressedSize)
+//@   ensures[sticky] implies(old(r.err) != nil, result == old(r.err))
+//@   modifies *r, mem(r.chunkReader.currNode)
+
+// Seek: "Any Seek call, such as Seek(0, io.SeekCurrent), will remove the high limit."
+//@ func (*Reader).Seek
+//@   prop C14
+//@   requires rOK(r)
+//@   ensures rOK(r)
+//@   ensures[position] implies(old(r.Concurrency) <= 1 && isnil(old(r.concReader.stopc)) && result1 == nil && old(r.chunkReader.initialized) && old(r.chunkReader.err) == nil, math(result0) == seekTarget(old(r.pos), old(r.chunkReader.decompressedSize), offset, whence) && r.pos == result0)
+//@   ensures[nolimit] implies(old(r.Concurrency) <= 1 && isnil(old(r.concReader.stopc)) && result1 == nil, r.posLimit == r.chunkReader.decompressedSize)
+//@   modifies *r, mem(r.chunkReader.currNode)
+
+// SeekRange: restricts r to [low, high); an error if low > high.
+//@ func (*Reader).SeekRange
+//@   prop C14
+//@   requires rOK(r)
+//@   ensures rOK(r)
+//@   ensures[order] implies(low > high, result != nil)
+//@   ensures[range] implies(old(r.Concurrency) <= 1 && isnil(old(r.concReader.stopc)) && result == nil, r.pos == low && r.posLimit == min(high, r.chunkReader.decompressedSize))
+//@   modifies *r, mem(r.chunkReader.currNode)
 
 // The concurrent reader is outside what function contracts can decide; its seek
 // is only framed here so that the sequential branch of Reader.seek can be proved.
